@@ -419,6 +419,30 @@ pub async fn run_case(backend: &str, seed: u64, rep: &mut Report, ops: &mut Vec<
             }
         }
     }
+    // C10: across everything a folder key encrypted in this history, no nonce is used twice
+    {
+        use futures::StreamExt; use sos_core::events::{EventLog, WriteEvent};
+        let a = w.devices[0].lock().await;
+        for (fid, _) in live.iter() {
+            let Ok(log) = a.folder_log(fid).await else { continue };
+            let l = log.read().await;
+            let st = l.event_stream(false).await; futures::pin_mut!(st);
+            let mut seen: BTreeMap<Vec<u8>, Vec<u8>> = BTreeMap::new();
+            let mut packs = 0usize;
+            while let Some(r) = st.next().await { if let Ok((_, ev)) = r {
+                let mut ps: Vec<sos_core::crypto::AeadPack> = vec![];
+                match ev { WriteEvent::CreateSecret(_, c) | WriteEvent::UpdateSecret(_, c) => { ps.push(c.1 .0.clone()); ps.push(c.1 .1.clone()); }
+                           WriteEvent::SetVaultMeta(p) => ps.push(p), _ => {} }
+                for p in ps {
+                    packs += 1;
+                    let n: Vec<u8> = match &p.nonce { sos_core::crypto::Nonce::Nonce12(b) => b.to_vec(), sos_core::crypto::Nonce::Nonce24(b) => b.to_vec() };
+                    if let Some(prev) = seen.get(&n) { if prev != &p.ciphertext { cx.fail("c10-nonce-reused-under-folder-key", &format!("folder {fid}: two different ciphertexts share a nonce")); } }
+                    seen.insert(n, p.ciphertext.clone());
+                }
+            } }
+            cx.rep.count_n("c10:packs-inspected", packs as u64);
+        }
+    }
     let s = cx.script.join(";");
     cx.rep.case(&s, true);
     if seed % 40 == 0 { let sc = cx.script.clone(); cx.rep.sample(json!({"script": sc})); }
